@@ -212,7 +212,7 @@ func (p *HTTPProxy) ServeHTTP(w http.ResponseWriter, r *http.Request) {
 	//Add OpenTrace Headers to response
 	trace.InjectHeaders(span, r)
 
-	upgrade, accept := r.Header.Get("Upgrade"), r.Header.Get("Accept")
+	accept := r.Header.Get("Accept")
 
 	tr := p.Transport
 	if t.Transport != nil {
@@ -223,7 +223,7 @@ func (p *HTTPProxy) ServeHTTP(w http.ResponseWriter, r *http.Request) {
 
 	var h http.Handler
 	switch {
-	case upgrade == "websocket" || upgrade == "Websocket":
+	case isWebsocketUpgrade(r):
 		r.URL = targetURL
 		if targetURL.Scheme == "https" || targetURL.Scheme == "wss" {
 			h = newWSHandler(targetURL.Host, func(network, address string) (net.Conn, error) {
